@@ -576,6 +576,133 @@ fn add_options(rng: &mut Rng, sh: &Shape, f: &mut Frame) {
     }
 }
 
+
+// ---------------------------------------------------------------------------------------------
+// what the model of the CURRENT code predicts for the redis.call translator (`Props/C16.lean`:
+// `luaErrTable`, proved complete by `lua_error_alphabet`; `lua_unknown_iff_not_in_luaTable`).
+// A recorded finding is reported only for the inputs these tables name; everything else gets an
+// unlisted signature with the concrete frame.  The table is compared with the Lean model on every
+// run (`LT` ops), so it cannot drift from the model silently.
+// ---------------------------------------------------------------------------------------------
+
+/// name, arity text, error literals, prefixes of formatted errors — one row per translator entry
+const LUA_TABLE: &[(&str, &str, &[&str], &[&str])] = &[
+    ("GET", "GET requires 1 argument", &[], &[]),
+    ("SET", "SET requires at least 2 arguments", &["SET EX must be integer", "SET EX requires value", "SET PX must be integer", "SET PX requires value", "ERR XX and NX options at the same time are not compatible"], &["Unknown SET option: "]),
+    ("DEL", "DEL requires at least 1 argument", &[], &[]),
+    ("INCR", "INCR requires 1 argument", &[], &[]),
+    ("DECR", "DECR requires 1 argument", &[], &[]),
+    ("INCRBY", "INCRBY requires 2 arguments", &["INCRBY increment must be integer"], &[]),
+    ("HGET", "HGET requires 2 arguments", &[], &[]),
+    ("HSET", "HSET requires key and field-value pairs", &[], &[]),
+    ("HDEL", "HDEL requires key and at least 1 field", &[], &[]),
+    ("LPUSH", "LPUSH requires key and at least 1 value", &[], &[]),
+    ("RPUSH", "RPUSH requires key and at least 1 value", &[], &[]),
+    ("LPOP", "LPOP requires 1 argument", &[], &[]),
+    ("RPOP", "RPOP requires 1 argument", &[], &[]),
+    ("LLEN", "LLEN requires 1 argument", &[], &[]),
+    ("SADD", "SADD requires key and at least 1 member", &[], &[]),
+    ("SREM", "SREM requires key and at least 1 member", &[], &[]),
+    ("SMEMBERS", "SMEMBERS requires 1 argument", &[], &[]),
+    ("EXISTS", "EXISTS requires at least 1 argument", &[], &[]),
+    ("EXPIRE", "EXPIRE requires 2 arguments", &["EXPIRE seconds must be integer"], &[]),
+    ("TTL", "TTL requires 1 argument", &[], &[]),
+    ("TYPE", "TYPE requires 1 argument", &[], &[]),
+    ("HINCRBY", "HINCRBY requires 3 arguments", &["HINCRBY increment must be integer"], &[]),
+    ("LRANGE", "LRANGE requires 3 arguments", &["LRANGE start must be integer", "LRANGE stop must be integer"], &[]),
+    ("RPOPLPUSH", "RPOPLPUSH requires 2 arguments", &[], &[]),
+    ("LMOVE", "LMOVE requires 4 arguments", &["LMOVE wherefrom must be LEFT or RIGHT", "LMOVE whereto must be LEFT or RIGHT"], &[]),
+    ("HGETALL", "HGETALL requires 1 argument", &[], &[]),
+    ("SISMEMBER", "SISMEMBER requires 2 arguments", &[], &[]),
+    ("ZADD", "ZADD requires key and score-member pairs", &["ZADD requires score-member pairs", "ZADD score must be a number"], &[]),
+    ("ZREM", "ZREM requires key and at least 1 member", &[], &[]),
+    ("ZRANGE", "ZRANGE requires 3 arguments", &["ZRANGE start must be integer", "ZRANGE stop must be integer"], &[]),
+    ("ZSCORE", "ZSCORE requires 2 arguments", &[], &[]),
+    ("ZCARD", "ZCARD requires 1 argument", &[], &[]),
+    ("ZCOUNT", "ZCOUNT requires 3 arguments", &[], &[]),
+    ("ZRANGEBYSCORE", "ZRANGEBYSCORE requires at least 3 arguments", &["ZRANGEBYSCORE LIMIT offset must be integer", "ZRANGEBYSCORE LIMIT count must be integer", "ZRANGEBYSCORE LIMIT requires offset and count"], &["Unknown ZRANGEBYSCORE option: "]),
+];
+
+const INT: &str = "ERR value is not an integer or out of range";
+const FLT: &str = "ERR value is not a valid float";
+
+/// every error text `from_resp` answers for a command the translator also knows (a trailing `*`
+/// marks a prefix): the other half of an expected (translator text, client-path text) pair
+fn direct_texts(name: &str) -> Vec<String> {
+    let wrong = |n: &str| format!("ERR wrong number of arguments for '{}' command", n);
+    let v: Vec<String> = match name {
+        "GET" | "INCR" | "DECR" => vec![wrong(&name.to_lowercase())],
+        "INCRBY" => vec![wrong("incrby"), INT.into()],
+        "SET" => ["SET requires at least 2 arguments", "SET EX requires a value", "SET PX requires a value", "SET EXAT requires a value", "SET PXAT requires a value", INT,
+            "ERR syntax error", "SET IFEQ option not yet supported", "SET IFGT option not yet supported", "ERR XX and NX options at the same time are not compatible"].iter().map(|s| s.to_string()).collect(),
+        "DEL" | "EXISTS" => vec![format!("{} requires at least 1 argument", name)],
+        "HDEL" | "LPUSH" | "RPUSH" | "SADD" | "SREM" | "ZREM" => vec![format!("{} requires at least 2 arguments", name)],
+        "LPOP" | "RPOP" | "LLEN" | "SMEMBERS" | "TTL" | "TYPE" | "HGETALL" | "ZCARD" => vec![format!("{} requires 1 argument", name)],
+        "HGET" | "RPOPLPUSH" | "SISMEMBER" | "ZSCORE" => vec![format!("{} requires 2 arguments", name)],
+        "HSET" => vec!["HSET requires key and field-value pairs".into()],
+        "EXPIRE" => vec!["EXPIRE requires at least 2 arguments".into(), INT.into(), "ERR Unsupported option *".into(),
+            "ERR NX and XX, GT or LT options at the same time are not compatible".into(), "ERR GT and LT options at the same time are not compatible".into()],
+        "HINCRBY" => vec!["HINCRBY requires 3 arguments".into(), INT.into()],
+        "LRANGE" => vec!["LRANGE requires 3 arguments".into(), INT.into()],
+        "LMOVE" => vec!["LMOVE requires 4 arguments".into(), "LMOVE wherefrom must be LEFT or RIGHT".into(), "LMOVE whereto must be LEFT or RIGHT".into()],
+        "ZADD" => vec!["ZADD requires key and score-member pairs".into(), "ZADD requires score-member pairs".into(), FLT.into()],
+        "ZRANGE" => vec!["ZRANGE requires 3 or 4 arguments".into(), INT.into()],
+        "ZCOUNT" => vec!["ZCOUNT requires 3 arguments".into()],
+        "ZRANGEBYSCORE" => vec!["ZRANGEBYSCORE requires at least 3 arguments".into(), "LIMIT requires offset and count".into(), INT.into(), "Unknown ZRANGEBYSCORE option: *".into()],
+        _ => vec![],
+    };
+    v
+}
+
+fn pat_match(pat: &str, text: &str) -> bool {
+    match pat.strip_suffix('*') {
+        Some(pre) => text.starts_with(pre),
+        None => pat == text,
+    }
+}
+
+fn lua_row(name: &str) -> Option<&'static (&'static str, &'static str, &'static [&'static str], &'static [&'static str])> {
+    LUA_TABLE.iter().find(|r| r.0 == name)
+}
+
+/// is `text` an error the model's translator entry for `name` can answer?
+fn lua_text_expected(name: &str, text: &str) -> bool {
+    match lua_row(name) {
+        Some(r) => r.1 == text || r.2.contains(&text) || r.3.iter().any(|p| text.starts_with(p)),
+        None => false,
+    }
+}
+
+/// the normalised command name as all three grammars compute it
+fn kw_name(f: &Frame) -> String {
+    String::from_utf8_lossy(&f[0]).to_uppercase()
+}
+
+/// `lua_to_resp(resp_to_lua_value(r))` as the model of the current code predicts it: a nil array is
+/// a nil bulk, an array ends at its first nil element
+fn model_conv(r: &RespValue) -> RespValue {
+    match r {
+        RespValue::Array(None) => RespValue::BulkString(None),
+        RespValue::Array(Some(xs)) => {
+            let mut out = Vec::new();
+            for x in xs {
+                if matches!(x, RespValue::BulkString(None) | RespValue::Array(None)) { break; }
+                out.push(model_conv(x));
+            }
+            RespValue::Array(Some(out))
+        }
+        other => other.clone(),
+    }
+}
+
+fn lua_table_sync(cx: &mut Ctx) {
+    for (i, r) in LUA_TABLE.iter().enumerate() {
+        let j = |l: &[&str]| l.iter().map(|t| hex(t.as_bytes())).collect::<Vec<_>>().join(";");
+        cx.out.op(format!("LT {}", i), format!("name={} arity={} lits={} fmts={}", hex(r.0.as_bytes()), hex(r.1.as_bytes()), j(r.2), j(r.3)));
+    }
+    cx.out.op(format!("LT {}", LUA_TABLE.len()), "end".to_string());
+}
+
 // ---------------------------------------------------------------------------------------------
 // the check of one frame: correspondence ops + three-way oracle + effect equality
 // ---------------------------------------------------------------------------------------------
@@ -710,23 +837,44 @@ impl Ctx {
 
         // ---- oracle 2: Lua path vs direct path
         let mut nontrivial = !matches!(&a, Parsed::Ok(c, _) if matches!(c, Command::Unknown(_)));
+        let key = kw_name(f);
+        let known_to_model = lua_row(&key).is_some();
+        let unknown_text = format!("ERR Unknown Redis command '{}' called from Lua", key);
         match (&a, &lua) {
-            (Parsed::Ok(c, _), LuaOutcome::Rejected(t)) if translator_error_shape(t) => {
-                if !matches!(c, Command::Unknown(_)) {
+            (_, LuaOutcome::Rejected(t)) if translator_error_shape(t) => {
+                let direct = a.line();
+                if matches!(&a, Parsed::Ok(Command::Unknown(_), _)) && !known_to_model && *t == unknown_text {
+                    nontrivial = false; // unknown to every grammar
+                } else if !known_to_model && *t == unknown_text {
+                    // the recorded finding: exactly the names absent from the model's `luaTable`
                     self.lua_unknown.insert(name.split('-').next().unwrap_or("").to_string());
                     self.out.count(&format!("lua-unknown:{}", name));
                     self.out.violation(
                         "C16:lua:command-unknown-to-translator",
                         "redis.call/pcall rejects a command both RESP parsers accept: the translator has no entry for it",
-                        replay("lua-unknown-command", json!({"direct": a.line(), "lua": t})),
+                        replay("lua-unknown-command", json!({"direct": direct, "lua": t})),
                     );
                 } else {
-                    nontrivial = false;
+                    // a command the model's translator table LISTS came back unknown (or the text names another command)
+                    self.out.violation(
+                        &format!("C16:lua:known-command-reported-unknown:{}", name),
+                        "redis.call answers 'Unknown Redis command' for a command that is in the translator's table according to the model of the current code",
+                        replay("lua-known-command-unknown", json!({"direct": direct, "lua": t, "expected_unknown_text_for_this_name": unknown_text})),
+                    );
                 }
             }
             (Parsed::Ok(..), LuaOutcome::Rejected(t)) => {
+                // recorded only for the exact option shapes the model says the translator lacks
+                let nargs = f.len() - 1;
+                let listed = match key.as_str() {
+                    "SET" => ["Unknown SET option: KEEPTTL", "Unknown SET option: EXAT", "Unknown SET option: PXAT"].contains(&t.as_str()),
+                    "EXPIRE" => t == "EXPIRE requires 2 arguments" && nargs >= 3,
+                    "ZRANGE" => t == "ZRANGE requires 3 arguments" && nargs == 4,
+                    _ => false,
+                };
+                let sig = if listed { format!("C16:lua:translator-rejects-accepted-frame:{}", name) } else { format!("C16:lua:translator-rejects-accepted-frame:{}:unlisted-shape", name) };
                 self.out.violation(
-                    &format!("C16:lua:translator-rejects-accepted-frame:{}", name),
+                    &sig,
                     "a frame both RESP parsers accept is rejected by the redis.call translator",
                     replay("lua-rejects", json!({"direct": a.line(), "lua": t})),
                 );
@@ -739,23 +887,27 @@ impl Ctx {
                 );
             }
             (Parsed::Err(e), LuaOutcome::Rejected(t)) => {
-                if translator_error_shape(t) {
-                    // a command the translator does not know, sent with bad arguments: same class as unknown
-                    self.lua_unknown.insert(name.split('-').next().unwrap_or("").to_string());
-                    self.out.count(&format!("lua-unknown:{}", name));
-                    self.out.violation(
-                        "C16:lua:command-unknown-to-translator",
-                        "redis.call/pcall rejects a command both RESP parsers accept: the translator has no entry for it",
-                        replay("lua-unknown-command", json!({"direct": e, "lua": t})),
-                    );
-                } else if e != t {
-                    self.lua_errtext.insert(name.clone());
-                    self.out.count(&format!("lua-error-text:{}", name));
-                    self.out.violation(
-                        "C16:lua:error-text-differs",
-                        "the same malformed command gets a different error text through redis.pcall than from the RESP parsers",
-                        replay("lua-error-text", json!({"direct": e, "lua": t})),
-                    );
+                if e != t {
+                    // recorded only for (translator text, client-path text) pairs the model of the current code predicts
+                    let listed = lua_text_expected(&key, t) && direct_texts(&key).iter().any(|p| pat_match(p, e));
+                    if listed {
+                        self.lua_errtext.insert(name.clone());
+                        self.out.count(&format!("lua-error-text:{}", name));
+                        self.out.violation(
+                            "C16:lua:error-text-differs",
+                            "the same malformed command gets a different error text through redis.pcall than from the RESP parsers",
+                            replay("lua-error-text", json!({"direct": e, "lua": t})),
+                        );
+                    } else {
+                        self.out.violation(
+                            &format!("C16:lua:unexpected-error-text:{}", name),
+                            "redis.pcall and the RESP parsers answer different error texts, and the pair is not one the model of the current code predicts for this command",
+                            replay("lua-unexpected-error-text", json!({"direct": e, "lua": t, "translator_texts_in_model": lua_row(&key).map(|r| json!({"arity": r.1, "literals": r.2, "prefixes": r.3})), "client_path_texts_in_model": direct_texts(&key)})),
+                        );
+                    }
+                } else if !lua_text_expected(&key, t) && known_to_model {
+                    // same text on both paths, but not a text the model's translator entry has
+                    self.out.count("lua-same-text-outside-table");
                 }
             }
             (Parsed::Ok(c, _), LuaOutcome::Accepted(rl)) => {
@@ -766,7 +918,7 @@ impl Ctx {
                     let same_reply = show_resp(rd) == show_resp(&rl) || (matches!(rd, RespValue::Array(None)) && matches!(rl, RespValue::BulkString(None)));
                     let (da, dl) = (dumps(&mut ex_direct), dumps(&mut ex_lua));
                     if !same_reply {
-                        let class = if contains_nil(rd) { "C16:lua:array-with-nil-truncated".to_string() } else { format!("C16:lua:reply-differs:{}", name) };
+                        let class = if contains_nil(rd) && show_resp(&model_conv(rd)) == show_resp(&rl) { "C16:lua:array-with-nil-truncated".to_string() } else { format!("C16:lua:reply-differs:{}", name) };
                         self.out.violation(&class, "the reply of a command run through redis.pcall differs from the reply of the same command sent directly (after the documented conversion)",
                             replay("lua-reply", json!({"primed_state": PRIMED, "direct_reply": show_resp(rd), "lua_reply": show_resp(&rl)})));
                     }
@@ -1037,7 +1189,8 @@ return show(redis.pcall(table.unpack(ARGV)))
                 cx.out.count("r2l");
                 // Redis: nil bulk / nil array are `false` inside a script
                 if matches!(rd, RespValue::BulkString(None) | RespValue::Array(None)) && shown != "false" {
-                    cx.out.violation("C16:lua:nil-bulk-becomes-nil-not-false", "a nil reply of redis.call is Lua nil inside the script (Redis: false)",
+                    // recorded only for the value the model of the current code predicts (Lua nil)
+                    cx.out.violation(if shown == "nil" { "C16:lua:nil-bulk-becomes-nil-not-false" } else { "C16:lua:nil-reply-conversion:unexpected-lua-value" }, "a nil reply of redis.call is Lua nil inside the script (Redis: false)",
                         json!({"call": call.iter().map(|x| String::from_utf8_lossy(x).to_string()).collect::<Vec<_>>(), "lua_value": shown, "redis_documented": "false"}));
                 }
             }
@@ -1047,12 +1200,12 @@ return show(redis.pcall(table.unpack(ARGV)))
     let mut ex = primed();
     let got = eval(&mut ex, "if redis.call('GET','missing') == false then return 1 else return 0 end", &vec![]).unwrap_or(RespValue::err("crash"));
     if show_resp(&got) != ":1" {
-        cx.out.violation("C16:lua:nil-bulk-becomes-nil-not-false", "a nil reply of redis.call is Lua nil inside the script (Redis: false)",
+        cx.out.violation(if show_resp(&got) == ":0" { "C16:lua:nil-bulk-becomes-nil-not-false" } else { "C16:lua:nil-reply-conversion:unexpected-script-result" }, "a nil reply of redis.call is Lua nil inside the script (Redis: false)",
             json!({"script": "if redis.call('GET','missing') == false then return 1 else return 0 end", "reply": show_resp(&got), "redis_documented": ":1"}));
     }
     let got = eval(&mut ex, "return {1, redis.call('GET','missing'), 3}", &vec![]).unwrap_or(RespValue::err("crash"));
     if show_resp(&got) != "*3 :1 $- :3" {
-        cx.out.violation("C16:lua:array-with-nil-truncated", "an array built from replies that contain a nil bulk is cut at the nil (Redis keeps it: nil bulk is false in Lua, and false converts back to a nil bulk)",
+        cx.out.violation(if show_resp(&got) == "*1 :1" { "C16:lua:array-with-nil-truncated" } else { "C16:lua:array-with-nil:unexpected-script-result" }, "an array built from replies that contain a nil bulk is cut at the nil (Redis keeps it: nil bulk is false in Lua, and false converts back to a nil bulk)",
             json!({"script": "return {1, redis.call('GET','missing'), 3}", "reply": show_resp(&got), "redis_documented": "*3 :1 $- :3"}));
     }
 }
@@ -1288,6 +1441,7 @@ pub fn run(a: &Args) {
     std::panic::set_hook(Box::new(|_| {}));
     let mut cx = Ctx { out: Out::new(&a.out), lua_unknown: BTreeSet::new(), lua_errtext: BTreeSet::new(), parse_crash: BTreeSet::new(), seen: BTreeSet::new() };
     let mut rng = Rng::new(a.seed);
+    lua_table_sync(&mut cx);
     corpus(&mut cx);
     unicode_sweep(&mut cx);
     float_sweep(&mut cx, &mut rng, (a.n / 4).max(200));
